@@ -144,14 +144,21 @@ def step_audit(prop, cfg, leanres, breaks, tier):
     # textual audit of the sources (comments stripped)
     hits = []
     pat = re.compile(r"\bsorry\b|\badmit\b|^\s*axiom |native_decide|bv_decide|implemented_by|\bunsafe |maxHeartbeats 0", re.M)
-    for dp, _, fns in os.walk(os.path.join(LEAN, "Drpc")):
-        for fn in fns:
-            if fn.endswith(".lean"):
-                txt = open(os.path.join(dp, fn)).read()
-                txt = re.sub(r"/-.*?-/", "", txt, flags=re.S)
-                txt = re.sub(r"--[^\n]*", "", txt)
-                for m in pat.finditer(txt):
-                    hits.append(f"{os.path.relpath(os.path.join(dp, fn), LEAN)}: {m.group(0)}")
+    # the sources scanned are the import closure of the property's modules and of the model driver
+    # (work-in-progress files nobody imports are not part of any claim)
+    todo, seen_files = list(cfg["modules"]) + ["Main"], {}
+    while todo:
+        m = todo.pop()
+        path = os.path.join(LEAN, *m.split(".")) + ".lean"
+        if m in seen_files or not os.path.exists(path):
+            continue
+        txt = open(path).read()
+        seen_files[m] = path
+        todo += re.findall(r"^import (Drpc[\w.]*)", txt, flags=re.M)
+        txt = re.sub(r"/-.*?-/", "", txt, flags=re.S)
+        txt = re.sub(r"--[^\n]*", "", txt)
+        for mm in pat.finditer(txt):
+            hits.append(f"{os.path.relpath(path, LEAN)}: {mm.group(0)}")
     if hits:
         breaks.append(dict(kind="proof", what="forbidden construct in Lean sources", detail="\n".join(hits[:10])))
     if tier == "thorough":
@@ -180,7 +187,7 @@ def run_suite(exe, suite, seed, tier, prop, timeout):
     args = [exe, suite, "-seed", str(seed)]
     if tier == "thorough":
         args.append("-thorough")
-    env = dict(GOENV, GOMEMLIMIT="8GiB", VERIF_PROP=prop)
+    env = dict(GOENV, GOMEMLIMIT="8GiB", VERIF_PROP=prop, VERIF_ROOT=ROOT, VERIF_REPO=REPO)
     try:
         p = subprocess.run(args, stdout=subprocess.PIPE, stderr=subprocess.PIPE, timeout=timeout, env=env, cwd=BUILD)
     except subprocess.TimeoutExpired as e:
